@@ -82,7 +82,6 @@ def main():
         raise SystemExit("term_image did not adopt the pty")
     if not isinstance(utils._tty_lock, sched.SLock):
         raise SystemExit("instrumentation lost: utils._tty_lock is not an instrumented lock")
-    utils._rlock_type = sched.SThreadLock
     term_image.set_query_timeout(5.0)
     tty_id, cell_id = utils._tty_lock.lid, utils._cell_size_lock.lid
     # name the cache locks after the memoized function that owns them (closure cell `lock`)
